@@ -703,4 +703,144 @@ theorem transpiledUint_hex (ds : Text) (h1 : ds ≠ []) (h2 : ds.all isHex = tru
   unfold transpiledUint
   exact bind_ok_uint64 _ _ (by rw [e]; exact p)
 
+
+/-! ### UTF-8 -/
+theorem utf8Decode_cp (c : Nat) (b : Bytes) (rest : Bytes) (h : utf8Cp c = .ok b) :
+    utf8Decode (b ++ rest) = (c :: ·) <$> utf8Decode rest := by
+  unfold utf8Cp at h
+  by_cases h1 : c < 0x80
+  · simp only [h1, if_true] at h; cases h
+    show utf8Decode (c :: rest) = _
+    rw [utf8Decode.eq_def]; simp [h1]
+  · simp only [h1, if_false] at h
+    by_cases h2 : c < 0x800
+    · simp only [h2, if_true] at h; cases h
+      have a1 : ¬ (0xC0 + c / 64 < 0x80) := by omega
+      have a2 : ¬ (0xC0 + c / 64 < 0xC2) := by omega
+      have a3 : 0xC0 + c / 64 < 0xE0 := by omega
+      have a4 : isCont (0x80 + c % 64) = true := by simp [isCont]; omega
+      have a5 : c / 64 * 64 + c % 64 = c := by omega
+      simp [utf8Decode, a1, a2, a3, a4, a5]
+    · simp only [h2, if_false] at h
+      by_cases h3 : c < 0x10000
+      · simp only [h3, if_true] at h
+        by_cases hs : isSurrogate c = true
+        · simp [hs] at h
+        · simp only [hs] at h; cases h
+          have hs' : ¬ (0xD800 ≤ c ∧ c ≤ 0xDFFF) := by simpa [isSurrogate] using hs
+          have a1 : ¬ (0xE0 + c / 4096 < 0x80) := by omega
+          have a2 : ¬ (0xE0 + c / 4096 < 0xC2) := by omega
+          have a3 : ¬ (0xE0 + c / 4096 < 0xE0) := by omega
+          have a4 : 0xE0 + c / 4096 < 0xF0 := by omega
+          have a5 : isCont (0x80 + c / 64 % 64) = true := by simp [isCont]; omega
+          have a6 : isCont (0x80 + c % 64) = true := by simp [isCont]; omega
+          have a7 : c / 4096 * 4096 + c / 64 % 64 * 64 + c % 64 = c := by omega
+          have hs2 : isSurrogate c = false := by simpa using hs
+          have a8 : 0x800 ≤ c := by omega
+          simp [utf8Decode, a1, a2, a3, a4, a5, a6, a7, a8, hs2]
+      · simp only [h3, if_false] at h
+        by_cases h4 : c < 0x110000
+        · simp only [h4, if_true] at h; cases h
+          have a1 : ¬ (0xF0 + c / 262144 < 0x80) := by omega
+          have a2 : ¬ (0xF0 + c / 262144 < 0xC2) := by omega
+          have a3 : ¬ (0xF0 + c / 262144 < 0xE0) := by omega
+          have a4 : ¬ (0xF0 + c / 262144 < 0xF0) := by omega
+          have a4' : 0xF0 + c / 262144 < 0xF5 := by omega
+          have a5 : isCont (0x80 + c / 4096 % 64) = true := by simp [isCont]; omega
+          have a6 : isCont (0x80 + c / 64 % 64) = true := by simp [isCont]; omega
+          have a6' : isCont (0x80 + c % 64) = true := by simp [isCont]; omega
+          have a7 : c / 262144 * 262144 + c / 4096 % 64 * 4096 + c / 64 % 64 * 64 + c % 64 = c := by omega
+          have a8 : 0x10000 ≤ c := by omega
+          simp [utf8Decode, a1, a2, a3, a4, a4', a5, a6, a6', a7, a8, h4]
+        · simp [h4] at h
+
+/-- strict decoding inverts encoding, for every text that can be encoded (no lone surrogates) -/
+theorem utf8_roundtrip : ∀ (s : Text) (b : Bytes), utf8Encode s = .ok b → utf8Decode b = .ok s
+  | [], b, h => by simp [utf8Encode] at h; subst h; simp [utf8Decode]
+  | c :: cs, b, h => by
+    simp only [utf8Encode] at h
+    cases hc : utf8Cp c with
+    | error e => simp [hc, bind, Except.bind] at h
+    | ok bc =>
+      cases hr : utf8Encode cs with
+      | error e => simp [hc, hr, bind, Except.bind] at h
+      | ok br =>
+        simp [hc, hr, bind, Except.bind, pure, Except.pure] at h
+        subst h
+        rw [utf8Decode_cp c bc br hc, utf8_roundtrip cs br hr]
+        rfl
+
+
+
+/-! ### any mixture of escape forms -/
+theorem prefixAll_of_all (p : Nat → Bool) : ∀ (n : Nat) (h rest : Text), h.length = n → h.all p = true →
+    prefixAll p n (h ++ rest) = true ∧ (h ++ rest).take n = h ∧ (h ++ rest).drop n = rest
+  | 0, [], rest, _, _ => by simp [prefixAll]
+  | n+1, c :: cs, rest, hl, ha => by
+    simp only [List.all_cons, Bool.and_eq_true] at ha
+    have ih := prefixAll_of_all p n cs rest (by simpa using hl) ha.2
+    simp [prefixAll, ha.1, ih.1, ih.2.1, ih.2.2]
+
+theorem spelled_renderAll : ∀ (ps : List Piece) (n : Nat), (∀ p ∈ ps, p.valid) → (renderAll ps).length ≤ n →
+    spelledFuel n (renderAll ps) = some (ps.map Piece.value)
+  | [], n, _, _ => by cases n <;> simp [renderAll, spelledFuel]
+  | p :: ps, n, hv, hn => by
+    have hp : p.valid := hv p (by simp)
+    have hvs : ∀ q ∈ ps, q.valid := fun q hq => hv q (by simp [hq])
+    cases p with
+    | lit c =>
+      simp only [renderAll, Piece.render, List.cons_append, List.nil_append, List.length_cons] at hn ⊢
+      match n, hn with
+      | n+1, hn =>
+        have ih := spelled_renderAll ps n hvs (by omega)
+        have hc : c ≠ 92 := hp
+        simp [spelledFuel, hc, ih, Piece.value]
+    | simple e =>
+      simp only [renderAll, Piece.render, List.cons_append, List.nil_append, List.length_cons] at hn ⊢
+      match n, hn with
+      | n+1, hn =>
+        have ih := spelled_renderAll ps n hvs (by omega)
+        have he : isSimple e = true := hp
+        simp [spelledFuel, escapeAt, he, ih, Piece.value]
+    | hex h1 h2 =>
+      simp only [renderAll, Piece.render, List.cons_append, List.nil_append, List.length_cons] at hn ⊢
+      match n, hn with
+      | n+1, hn =>
+        have ih := spelled_renderAll ps n hvs (by omega)
+        obtain ⟨a, b⟩ : isHex h1 = true ∧ isHex h2 = true := hp
+        simp [spelledFuel, escapeAt, isSimple, prefixAll, a, b, digitsVal, ih, Piece.value]
+    | u4 h =>
+      simp only [renderAll, Piece.render, List.cons_append, List.length_cons] at hn ⊢
+      match n, hn with
+      | n+1, hn =>
+        have ih := spelled_renderAll ps n hvs (by simp at hn; omega)
+        obtain ⟨a, b, c⟩ : h.length = 4 ∧ h.all isHex = true ∧ isScalar (digitsVal 16 hexVal h) = true := hp
+        obtain ⟨x, y, z⟩ := prefixAll_of_all isHex 4 h (renderAll ps) a b
+        have e : List.drop 5 (117 :: (h ++ renderAll ps)) = renderAll ps := by
+          show List.drop 4 (h ++ renderAll ps) = _; exact z
+        simp [spelledFuel, escapeAt, isSimple, x, y, e, c, ih, Piece.value]
+    | u8 h =>
+      simp only [renderAll, Piece.render, List.cons_append, List.length_cons] at hn ⊢
+      match n, hn with
+      | n+1, hn =>
+        have ih := spelled_renderAll ps n hvs (by simp at hn; omega)
+        obtain ⟨a, b, c⟩ : h.length = 8 ∧ h.all isHex = true ∧ isScalar (digitsVal 16 hexVal h) = true := hp
+        obtain ⟨x, y, z⟩ := prefixAll_of_all isHex 8 h (renderAll ps) a b
+        have e : List.drop 9 (85 :: (h ++ renderAll ps)) = renderAll ps := by
+          show List.drop 8 (h ++ renderAll ps) = _; exact z
+        simp [spelledFuel, escapeAt, isSimple, x, y, e, c, ih, Piece.value]
+    | oct o1 o2 o3 =>
+      simp only [renderAll, Piece.render, List.cons_append, List.nil_append, List.length_cons] at hn ⊢
+      match n, hn with
+      | n+1, hn =>
+        have ih := spelled_renderAll ps n hvs (by omega)
+        obtain ⟨a, b, c, d⟩ : 48 ≤ o1 ∧ o1 ≤ 51 ∧ isOct o2 = true ∧ isOct o3 = true := hp
+        have ns : isSimple o1 = false := by simp [isSimple]; omega
+        have e1 : o1 ≠ 120 := by omega
+        have e2 : o1 ≠ 117 := by omega
+        have e3 : o1 ≠ 85 := by omega
+        simp [spelledFuel, escapeAt, ns, e1, e2, e3, a, b, prefixAll, c, d, digitsVal, ih, Piece.value]
+        omega
+
+
 end Cel.Str
